@@ -589,6 +589,23 @@ func checkSegmentStats(m *Module, r *Report) {
 				}
 				return
 			}
+			// P = min(P, elem.F) is the same update in the builtin spelling
+			if args, isMin, ok := minMaxCall(v); ok && len(args) == 2 {
+				a, b := args[0], args[1]
+				if strip(b) == ssa.Value(P) {
+					a, b = b, a
+				}
+				if _, isF := fieldLoad(b, sp.field); strip(a) == ssa.Value(P) && isF {
+					if isMin != sp.isMin {
+						why = "updated with " + describe(v) + ", the opposite extreme"
+						return
+					}
+					if hdr.Dominates(pred) {
+						nUpd++
+					}
+					return
+				}
+			}
 			leaf, isF := fieldLoad(v, sp.field)
 			if !isF {
 				why = "updated with " + describe(v) + ", which is not a record's " + sp.field
